@@ -353,6 +353,8 @@ func execStore(t *testing.T, sc *ConcScenario, choose chooser) *execResult {
 				}
 				res.viol = viol(sym, "%s", r.String())
 				res.viol.Culprit = "err:" + r.Err
+				rc := r
+				res.viol.failRec = &rc
 				break
 			}
 		}
@@ -416,10 +418,21 @@ func classifyConc(sc *ConcScenario, recs []callRec, v *Violation, init map[strin
 	isUpd := func(k OpKind) bool { return k == OpPut || k == OpRemove }
 	var trig []string
 	sameKey, prefixPair, idxGCvsCall, priGCvsUpd := false, false, false, false
+	callErr := v.Symptom == "call-error" || v.Symptom == "panic"
+	involvesFailing := func(a, b callRec) bool {
+		if !callErr {
+			return true
+		}
+		if v.failRec == nil {
+			return false // the failing call is a quiescent final read: it overlaps nothing
+		}
+		f := v.failRec
+		return (a.Thread == f.Thread && a.Call == f.Call) || (b.Thread == f.Thread && b.Call == f.Call)
+	}
 	for i := range recs {
 		for j := i + 1; j < len(recs); j++ {
 			a, b := recs[i], recs[j]
-			if a.Thread == b.Thread || !overlap(a, b) {
+			if a.Thread == b.Thread || !overlap(a, b) || !involvesFailing(a, b) {
 				continue
 			}
 			for _, p := range [][2]callRec{{a, b}, {b, a}} {
@@ -673,6 +686,20 @@ func c06Scenarios(tier string) []*ConcScenario {
 				Extra: map[string]any{"final": reopenFinal}}
 			sc.Name = fmt.Sprintf("c06/%s/%s/%s", c.String(), G1.name, progString(ths))
 			sc.Desc = fmt.Sprintf("init %s [%s]; %s", G1.name, opsString(G1.ops), progString(ths))
+			scs = append(scs, sc)
+		}
+	}
+	// a cycle that relocates two live records of different sizes out of one
+	// low-use file while readers and a writer touch those keys
+	{
+		c := cfg("mh", false, 8, 48, 100)
+		in := namedInit{"G4-low-use-two-live", []Op{P(0, 5), P(1, 1), P(3, 2), opF, P(0, 1), opF, P(4, 1), opF}}
+		for _, cl := range [][]Op{{G(1), G(3)}, {P(1, 3), G(3)}} {
+			ths := [][]Op{{{Kind: OpPriGC, A: 50}}, cl}
+			sc := &ConcScenario{Prop: "C06", Cfg: c, Init: in.ops, Threads: ths, Bound: bound, Exec: execStore,
+				Extra: map[string]any{"final": reopenFinal}}
+			sc.Name = fmt.Sprintf("c06/%s/%s/%s", c.String(), in.name, progString(ths))
+			sc.Desc = fmt.Sprintf("init %s [%s]; %s", in.name, opsString(in.ops), progString(ths))
 			scs = append(scs, sc)
 		}
 	}
